@@ -37,6 +37,14 @@ async def run(chk, program, dep, kills, lines, impl, oracle=True):
     killed_q_during = []
 
     async def boundary():
+        # kills addressed to ids that name NO live connection but resemble the target's (same sequence number under another
+        # server-id prefix, the bare sequence number, one bit off): they must change nothing, at any point
+        cid = d.peer.greeting["cid"] if d.peer.greeting else None
+        if cid is not None and nev[0] % 2 == 0:
+            from mysql_mimic.constants import KillKind
+            for bad in {(cid + 65536) & 0xFFFFFFFF, (cid - 65536) & 0xFFFFFFFF, cid & 0xFFFF, cid ^ 0x10000, cid ^ 0x80000000} - {cid}:
+                await d.ctl.kill(bad, KillKind.QUERY if (nev[0] // 2) % 2 == 0 else KillKind.CONNECTION)
+            await settle(3)
         k = kills.get(nev[0])
         nev[0] += 1
         if k:
